@@ -193,6 +193,11 @@ pub fn exec_access(k: &AccessCase, ctx: &mut Ctx) -> Verdict {
             let mut v = parent.view_mut(lay.s1, lay.e1);
             probe_mut(&mut Thin::new(&mut v), &p, tag, &mut written)?;
         }
+        (Some(RecvKind::SliceMut), _) => {
+            tag = "view_mut over slice";
+            let mut v = TooDeeViewMut::new(lay.c, lay.r, parent.data_mut());
+            probe_mut(&mut v, &p, tag, &mut written)?;
+        }
         (Some(RecvKind::Nested), _) => {
             tag = "nested view_mut";
             let mut v1 = parent.view_mut(lay.s1, lay.e1);
@@ -559,7 +564,7 @@ impl Prop for C03 {
         "view / view_mut chains of depth 1..3 over {owned array, third-party wrapper, TooDeeView::new / TooDeeViewMut::new over a plain slice with slack}: depth 1 exhaustive over parent shapes (0..=4)^2 (thorough (0..=6)^2) x all (start,end) in {0..dim+1}^4 plus huge components; depth 2 exhaustive inner windows for fixed outer windows; random depth <= 3 with each level generated inside (or just outside) the previous one. Oracle: valid <=> start <= end <= size componentwise => no panic, size == end-start or (0,0) if an extent is zero, and the ADDRESS of every view cell v[(c,r)] equals the root-buffer address of the composed parent coordinate; invalid => panic. For view_mut every cell is overwritten through the view and the whole root buffer is compared with the model. Non-trivial = a window smaller than its parent, or a zero-extent window at the far edge, or depth >= 2, or a rejected window. Distinct = distinct case."
     }
     fn bound(t: Tier) -> String {
-        format!("depth 1: shapes (0..={n})^2, all (x0,y0,x1,y1) in {{0..dim+1}}^4, view and view_mut, 4 roots; depth 2: all inner windows of 3 fixed outer windows of a 4x4 parent", n = if t == Tier::Quick { 4 } else { 6 })
+        format!("depth 1: shapes (0..={n})^2, all (x0,y0,x1,y1) in {{0..dim+1}}^4, view and view_mut, 4 roots; depth 2: all inner windows of 6 fixed outer windows (three of them empty) of 4x4 / 5x4 / 3x2 parents", n = if t == Tier::Quick { 4 } else { 6 })
     }
     fn enumerate(tier: Tier, emit: &mut dyn FnMut(WindowCase)) {
         let n = if tier == Tier::Quick { 4u8 } else { 6u8 };
@@ -596,7 +601,7 @@ impl Prop for C03 {
         }
         // depth 2 (and one depth 3): all inner windows of fixed outer windows of a 4x4 / 5x4 parent
         for root in [Root::Owned, Root::SliceViewMut(1)] {
-            for (cols, rows, outer) in [(4u8, 4u8, [1u64, 1, 3, 4]), (5, 4, [0, 1, 3, 3]), (4, 4, [2, 0, 4, 2])] {
+            for (cols, rows, outer) in [(4u8, 4u8, [1u64, 1, 3, 4]), (5, 4, [0, 1, 3, 3]), (4, 4, [2, 0, 4, 2]), (4, 4, [1, 1, 1, 3]), (4, 4, [4, 4, 4, 4]), (3, 2, [0, 2, 3, 2])] {
                 let (oc, or) = (outer[2] - outer[0], outer[3] - outer[1]);
                 for m1 in [false, true] {
                     for m2 in [false, true] {
